@@ -176,6 +176,16 @@ func patchOverlay(repo, patchFile string) (map[string][]byte, error) {
 		if strings.HasPrefix(ln, "+++ b/") {
 			files = append(files, strings.TrimSpace(strings.TrimPrefix(ln, "+++ b/")))
 		}
+		if strings.HasPrefix(ln, "--- a/") { // also the files a patch deletes
+			f := strings.TrimSpace(strings.TrimPrefix(ln, "--- a/"))
+			dup := false
+			for _, x := range files {
+				dup = dup || x == f
+			}
+			if !dup {
+				files = append(files, f)
+			}
+		}
 	}
 	if len(files) == 0 {
 		return nil, fmt.Errorf("no files in %s", patchFile)
@@ -209,7 +219,22 @@ func patchOverlay(repo, patchFile string) (map[string][]byte, error) {
 	for _, f := range files {
 		pb, err := os.ReadFile(filepath.Join(tmp, f))
 		if err != nil {
-			continue // deleted by the patch: not supported, leave the original
+			// deleted by the patch: an overlay cannot remove a file, so it becomes an empty file of its package
+			orig, rerr := os.ReadFile(filepath.Join(repo, f))
+			if rerr != nil {
+				continue
+			}
+			pkg := ""
+			for _, ln := range strings.Split(string(orig), "\n") {
+				if strings.HasPrefix(ln, "package ") {
+					pkg = strings.TrimSpace(ln)
+					break
+				}
+			}
+			if pkg == "" {
+				continue
+			}
+			pb = []byte(pkg + "\n")
 		}
 		ov[filepath.Join(repo, f)] = pb
 	}
